@@ -85,7 +85,10 @@ def wait_until(pred, timeout=5.0):
 def keypress_threads(cs):
     return [t for t in threading.enumerate() if getattr(t, '_target', None) is cs.keypress]
 
-def run_main(argv, trigger=None, stdin=None, close_stdin_at_end=True, keep_input=False):
+class RunawayOutput(Exception):
+    pass
+
+def run_main(argv, trigger=None, stdin=None, close_stdin_at_end=True, keep_input=False, max_guesses=3000000):
     """Run the real main() once.  trigger(ev, ctx) is called in the generation thread at every POP / GUESS event and may
     call ctx.deliver(...)."""
     pcfg_guesser, cs, pg, pq = _modules()
@@ -122,6 +125,8 @@ def run_main(argv, trigger=None, stdin=None, close_stdin_at_end=True, keep_input
     def rec_print(self, g):
         ctx.pcfg = self
         res.guesses.append(g)
+        if len(res.guesses) > max_guesses:
+            raise RunawayOutput(f'more than {max_guesses} guesses: the run does not stop')
         if trigger:
             trigger(('GUESS', len(res.guesses), g, len(res.pops) - 1,
                      len(res.guesses) - (res.pops[-1]['first_guess'] if res.pops else 0)), ctx)
